@@ -9,12 +9,14 @@ A scenario is plain data (replayable):
               {"mode": "stall", "after": nbytes, "resume": "never"|float} |
               {"mode": "disconnect", "after": nbytes, "how": "close"|"reset"|"shutdown_wr"}}]}
   req = {"m": "GET", "v": "1.1", "n": payload bytes, "k": kind, "body": request body bytes,
-         "chunked_req": bool, "expect": bool, "close": bool, "keepalive": bool, "w": chunk size}
+         "chunked_req": bool, "expect": bool, "close": bool, "keepalive": bool, "w": chunk size,
+         "gate": True (runs on when its own client opens the gate) | "peer" (runs on once a request
+         of another connection has been executed)}
   kinds: "cl" (Content-Length, one chunk), "chunks" (Content-Length, chunks of w bytes),
          "write" (write() callable, Content-Length), "gen" (generator, Content-Length),
          "fw" (wsgi.file_wrapper), "nocl" (generator without Content-Length),
          "raise0" (exception before output), "raise1" (exception after first chunk),
-         "short" (declares n bytes, produces n-3)
+         "short" (declares n bytes, produces n-3), "short0" (declares n bytes, produces none)
 """
 
 import io
@@ -25,7 +27,9 @@ from vf.ref import response as rs
 
 def target_of(cid, idx, req):
     t = "/r?c=%d&i=%d&n=%d&k=%s&w=%d" % (cid, idx, req.get("n", 10), req.get("k", "cl"), req.get("w", 0))
-    if req.get("gate"):
+    if req.get("gate") == "peer":
+        t += "&g=2"
+    elif req.get("gate"):
         t += "&g=1"
     return t
 
@@ -68,7 +72,7 @@ def closes_connection(req):
         return True
     if v == "1.0" and not req.get("keepalive"):
         return True
-    if k in ("nocl", "raise0", "raise1", "short"):
+    if k in ("nocl", "raise0", "raise1", "short", "short0"):
         return True
     if "raw" in req:
         return bool(req.get("refused", True))
@@ -107,11 +111,17 @@ def make_app(world, log, hooks=None):
                 world.gates[("waiting", cid)] = True
                 world.net.changed()
                 world.wait_until(lambda: world.gates.get(cid))
+            if q.get("g") == "2":
+                # peer-gated request (a long poll): runs on only once a request of another
+                # connection has been executed; needs a second worker thread
+                log.add(world, cid, idx, "gate-wait")
+                world.gates["peer-waiters"] = True
+                world.wait_until(lambda: any(c != cid and what == "exit" for _, c, _, what in log.events))
             payload = apps.ident_payload(cid, idx, n)
             hdrs = [("Content-Type", "application/octet-stream"), ("X-Req", "%d-%d" % (cid, idx))]
             if k == "raise0":
                 raise apps.AppError("app-failure-%d-%d" % (cid, idx))
-            if k in ("cl", "chunks", "write", "gen", "fw", "short", "raise1", "stream"):
+            if k in ("cl", "chunks", "write", "gen", "fw", "short", "short0", "raise1", "stream"):
                 hdrs.append(("Content-Length", str(n)))
             if environ["REQUEST_METHOD"] == "HEAD":
                 start_response("200 OK", hdrs)
@@ -143,6 +153,10 @@ def make_app(world, log, hooks=None):
                 world.wait_until(lambda: tail in conn.client_received or conn.server_closed or conn.client_closed)
                 log.add(world, cid, idx, "stream-acked")
                 return []
+            if k == "short0":
+                # declares n bytes, produces none at all
+                start_response("200 OK", hdrs)
+                return []
             if k == "short":
                 start_response("200 OK", hdrs)
                 return [payload[: max(0, n - 3)]]
@@ -164,6 +178,8 @@ def make_app(world, log, hooks=None):
             raise ValueError(k)
         finally:
             log.add(world, cid, idx, "exit")
+            if world.gates.get("peer-waiters"):
+                world.net.changed()
 
     return app
 
